@@ -3,6 +3,36 @@ import FancyModel.Proofs.C05c
 import FancyModel.Proofs.C16
 /-!
 # C16 (second part) — group metadata: the parser's counter, names, accessors
+
+**Part 1 — the parser's group counter is the analyzer's numbering.**
+* `C16_descent` (`Desc16`, `Inv`): the invariant of the mutual descent of the parser, for every byte
+  string, fuel, state, index and depth: a call that returns `ok (ix', e, st')` has advanced
+  `curr_group` by `groupCount e`, has extended `named_groups` by the names of the groups of `e`
+  bound to their numbers in opening-parenthesis (pre-)order (`bindNames`), has not moved left, and has
+  moved right if `e` holds a group.  The last clause is what makes the two places where the parser
+  DROPS a parsed node harmless (`next == ix` in `parse_branch`, `end == next` in
+  `parse_conditional`): a node that consumed nothing holds no group.  `parse_group` increments
+  before the body (pre-order); `parse_conditional` visits condition, then/else in `renumber`'s order;
+  look-arounds, atomic groups, flag groups, conditionals do not count.  One more place needed an
+  argument: a named group `(?<n>…)` is returned as `Group` only because `skip + 1 ≠ 2`
+  (`(None, 2)` means "atomic" in `parse_group`), which holds because `parse_id` consumes more than
+  its two delimiters (`okP_parseId`).
+* `C16_parse_counter`: final `curr_group` = `groupCount tree` (= where `renumber _ 1` ends, minus 1).
+* `C16_names_at_index`, `mem_bindNames_top`, `C16_names_range`, `C16_names_distinct`,
+  `C16_preorder`, `C16_named_group`, `C16_named_group_P`: the name table is `bindNames [] 0 ann`
+  where `ann[i]` is the name written at the `(i+1)`-th capture group; `(name, k)` is an entry iff
+  group `k` is written with that name and no later group is; `1 ≤ k ≤ groupCount`; no name twice, no
+  index twice; `renumber` numbers the groups `1, 2, …` in the same pre-order.
+  The model's `Expr.group` carries no name (the Rust `Expr::Group` has none either), so "the group
+  carrying that name" is expressed through `ann` and tied to the source text by `C16_named_group`:
+  `parse_group` at `(?<name>` binds `name ↦ curr_group + 1` and returns the capture group whose
+  opening parenthesis is the `(curr_group + 1)`-th.
+
+**Part 2 — `capture_names`** (`captureNames`, any `HashMap` iteration order): `C16_names_model`.
+
+**Part 3 — `Captures`** (`Caps`: `len`, `get`, `name`, `iter`): `C16_caps_accessors`,
+`C16_caps_model` (any stage with `VmCorrectR`), `C16_caps_fancy` (stage S2), `C16_caps_wrap`
+(hand-off path), `C16_caps_names`.
 -/
 namespace Fancy.Parse
 open Fancy.Utf8 (codepointLen isLead)
@@ -1616,4 +1646,79 @@ theorem C16_caps_names (isAlnum : Char → Bool) (cs : List Char) (casei : Bool)
   have hr := C16_names_range isAlnum cs casei t h nm k hk
   exact ⟨h6 (C16_names_distinct isAlnum cs casei t h).1 nm k hk, hr.1, by omega⟩
 
+/-! ### Non-vacuity (Part 3): a `Captures` value of a 3-group regex, groups 0 and 1 set -/
+
+private def caps1 : Caps := ⟨[some 0, some 2, some 0, some 1, none, none], [([110], 1), ([109], 2)]⟩
+example : caps1.len = 3 := by decide
+example : caps1.get 0 = .span 0 2 := by decide
+example : caps1.get 2 = .absent := by decide
+example : caps1.get 3 = .absent := by decide
+example : caps1.name [110] = .span 0 1 := by decide
+example : caps1.iter = [.span 0 2, .span 0 1, .absent] := by
+  simp [Caps.iter, Caps.iterFrom, Caps.len, Caps.get, caps1]
+
+/-- the hypothesis `VmCorrectR` of `C16_caps_model` holds of every stage-S2 pattern
+    (`C01_vm_correct_s2`), e.g. of `exTree2` = `(a)(?>\\1|b)(?=c)` (C05c) -/
+example (tree : Expr) (backrefs : List Nat) (b : Built) (prog : Prog) (c : Ctx)
+    (hb : build tree backrefs = .ok b) (hk : b.kind = .fancy prog)
+    (hok : s2ok b.raw = true) (hnd : noDeleg prog.body = true)
+    (hlen : c.len < UNSET) (hpos : c.pos ≤ c.len) : VmCorrectR b c :=
+  C01_vm_correct_s2 tree backrefs b prog c hb hk hok hnd hlen hpos
+
 end Fancy
+
+namespace Fancy.Parse
+open Fancy
+
+/-! ### Non-vacuity (Parts 1, 2): concrete patterns, by evaluation -/
+
+private def P16 (s : String) : Res Tree := parseStr (fun c => c.isAlphanum) s.toList false
+private def la : Expr := .literal ['a'] false
+private def lb : Expr := .literal ['b'] false
+private def lc : Expr := .literal ['c'] false
+
+/-- `(?<n>a)(?:b)(?<m>(c))(?=(a))`: 4 capture groups; `n ↦ 1`, `m ↦ 2` -/
+private def tree1 : Expr :=
+  .concat [.group 0 la, lb, .group 0 (.group 0 lc), .look (.group 0 la) .ahead]
+
+example : P16 "(?<n>a)(?:b)(?<m>(c))(?=(a))" = .ok ⟨tree1, [], [([109], 2), ([110], 1)]⟩ :=
+  isTree_sound (by decide +kernel)
+
+example : groupCount tree1 = 4 := by decide
+
+example : bindNames [] 0 [some [110], some [109], none, none] = [([109], 2), ([110], 1)] := by decide
+
+-- a name written twice
+example : P16 "(?<n>a)(?<n>b)" = .ok ⟨.concat [.group 0 la, .group 0 lb], [], [([110], 2)]⟩ :=
+  isTree_sound (by decide +kernel)
+
+example : bindNames [] 0 [some [110], some [110]] = [([110], 2)] := by decide
+
+example : captureNames [([109], 2), ([110], 1)] 5 = some [none, some [110], some [109], none, none] := by
+  decide
+example : captureNames [([110], 1), ([109], 2)] 5 = some [none, some [110], some [109], none, none] := by
+  decide
+
+/-- `(?<n>a)(?:b)(?<m>(c))` (handed over whole: the Wrap path) -/
+private def tree2 : Expr := .concat [.group 0 la, lb, .group 0 (.group 0 lc)]
+
+example : P16 "(?<n>a)(?:b)(?<m>(c))" = .ok ⟨tree2, [], [([109], 2), ([110], 1)]⟩ :=
+  isTree_sound (by decide +kernel)
+
+example : ∃ b, build tree2 [] = .ok b ∧ b.nGroups = 4 ∧ b.kind = .wrap := by
+  simp [build, tree2, wrapTree, renumber, renumberList, checkRefs, checkRefsList, isHard, isHardAny,
+    la, lb, lc]
+
+private def re1 : Bytes := bytesOf "(?<n>a)".toList
+
+/-- the hypotheses of `C16_named_group` on `(?<n>a)` -/
+example :
+    optWs re1 ({} : PState).flags (0 + 1) = .ok 1 ∧ lookOf re1 1 = none ∧
+    startsWithAt re1 1 [ch '?', ch '<'] = true ∧
+    parseId (fun c => c.isAlphanum) re1 (1 + 1) [ch '<'] [ch '>'] false = .ok (some (3, 4, 3)) ∧
+    parseGroup (fun c => c.isAlphanum) (49 + 1) re1 {} 0 0 =
+      .ok (7, .group 0 la, { currGroup := 1, namedGroups := [([110], 1)] }) :=
+  ⟨isOkVal_sound (by decide +kernel), by decide +kernel, by decide +kernel,
+    isOkVal_sound (by decide +kernel), isOk3_sound (by decide +kernel)⟩
+
+end Fancy.Parse
